@@ -25,6 +25,12 @@ def correspond(prop, prefixes):
                 if m["tb_in_call"]:
                     # hypothesis of C10_disabled_knob_never_changed evaluated by the driver on this call
                     STATS["step_calls_take_best_row_logged_in_call"] = STATS.get("step_calls_take_best_row_logged_in_call", 0) + 1
+            if o["call"].get("args") is not None and "vact" in m:
+                # step() with per-call enable_* / disable_* arguments: run by the model as Opt.optStepWith from the state
+                # before the flags are applied; final flags compared below like those of every other call
+                STATS["step_calls_with_per_call_arguments"] = STATS.get("step_calls_with_per_call_arguments", 0) + 1
+                if m["exc"] != "ok":
+                    STATS["per_call_steps_raising"] = STATS.get("per_call_steps_raising", 0) + 1
             if "num_steps" in m:
                 # solver steps of this call whose numerics (clip, trial points) were replayed on doubles by the driver
                 STATS["solver_steps_replayed"] = STATS.get("solver_steps_replayed", 0) + m["num_steps"]
